@@ -30,39 +30,13 @@ def run(ctx):
     quick = ctx.tier == "quick"
     n_random = 700 if quick else 8000
     max_w = 8 if quick else 64
-    coq_cases = []
-    nviol = 0
+    suite = cc.LinearSuite(ctx, "count-min sandwich violated on the implementation")
+
+    def pred(i, op, slot, before, after, bm, universe, extra):
+        return cc.sandwich_violation(slot.sk, slot.truth, bm, universe, len(before[0]))
 
     def one_case(width, depth, alphabet, nslots, prog, tag):
-        nonlocal nviol
-        universe = cc.universe_of(alphabet, prog)
-        mk = lambda: CountMinLinear(width, depth)
-        bm = cc.probe_buckets(mk, universe, depth)
-        state = {"bad": None}
-
-        def on_step(i, op, slots):
-            if state["bad"] is None:
-                s = slots[op[1]]
-                v = cc.sandwich_violation(s.sk, s.truth, bm, universe, depth)
-                if v:
-                    state["bad"] = (i, v)
-        slots = cc.run_program(ctx, mk, width, depth, alphabet, nslots, prog, tmp, on_step)
-        if state["bad"] and nviol < 3:
-            i, v = state["bad"]
-            ctx.violation({"width": width, "depth": depth, "program": cc.prog_json(prog[:i + 1]), "failed": v,
-                           "bucket_map": {str(list(k)): c for k, c in bm.items()}},
-                          "count-min sandwich violated on the implementation")
-            nviol += 1
-        he = [(s.hist, cc.snapshot(s.sk, universe)) for s in slots]
-        coq_cases.append(cc.coq_case(width, depth, bm, he))
-        collide = any(len({bm[k][r] for k in universe}) < len(universe) for r in range(depth))
-        merges = sum(1 for op in prog if op[0] == "merge")
-        ctx.case_seen((width, depth, tuple(map(repr, prog))), collide or merges > 0)
-        for op in prog:
-            ctx.count("op:" + op[0])
-        ctx.count("len<=5" if len(prog) <= 5 else "len<=15" if len(prog) <= 15 else "len>15")
-        ctx.count(f"width={width}" if width <= 4 else "width>4")
-        return slots
+        return suite.run_case(width, depth, alphabet, nslots, prog, pred)
 
     # ---- corpus: everything collides (width 1); multiplicity 2^40; ceiling neighbourhood
     one_case(1, 2, [b"a", b"b", b""], 1, [("add", 0, b"a", 3), ("add", 0, b"b", 2), ("add", 0, b"", 0)], "corpus")
@@ -88,19 +62,8 @@ def run(ctx):
         alphabet, nslots, prog = cc.gen_program(rng, max_len=25 if quick else 40)
         one_case(width, depth, alphabet, nslots, prog, "rnd")
     ctx.tick("implementation runs + sandwich predicate done")
-    ctx.cov["traces_validated_against_impl"] = len(coq_cases)
-
-    bad, err = ctx.coq_bad_cases("lin", "Machine Harness CmsLinear CmsLinearHarness", "check_lin_case",
-                                 coq_cases, shard=60)
-    if err:
-        ctx.broken.append("correspondence cms-linear could not be evaluated: " + err)
-    if bad:
-        i = sorted(bad)[0]
-        ctx.broken.append(f"correspondence cms-linear: model and implementation differ on {len(bad)} histories; "
-                          f"first case: {coq_cases[i][:1500]}")
+    suite.finish()
     ctx.tick("model evaluated in Coq")
-    ctx.sample(coq_cases[1][:600])
-    ctx.sample(coq_cases[-1][:900])
     ctx.cov["rule"] = ("case = (width, depth, observed bucket map, API-level program over 1..4 sketches: add with "
                        "multiplicities from {0,1,2,3,5,17,1000,cap-2..cap+1,2^40}, update(list|dict), add_ngram, update_ngram, "
                        "merge (<=3, any shape), save/load through a real file); sandwich predicate evaluated on the "
